@@ -490,7 +490,10 @@ theorem sound_adapters_in_bounds (ads : List Matchable) (h : ∀ a ∈ ads, a.WF
   adaptersInBounds_of_wf ads h
 
 theorem matchable_wf_def (a : Matchable) :
-    a.WF ↔ match a with | .single x => C01.AdapterWF x | .linked f b _ _ _ => C01.AdapterWF f ∧ C01.AdapterWF b := by
+    a.WF ↔ match a with
+      | .single x => C01.AdapterWF x
+      | .linked f b _ _ _ => C01.AdapterWF f ∧ C01.AdapterWF b
+      | .indexed ix _ => ix = Index.makeIndex Index.hashOps ix.adapters ix.isPrefix ∧ ∀ a ∈ ix.adapters, C08.IsACGT a.seq ∧ C01.AdapterWF a := by
   cases a <;> rfl
 
 /-- **…so for well-formed adapters every action is covered**: whatever `--action`, the read that leaves the modifiers
